@@ -118,8 +118,10 @@ func (p *C01) Gen(seed uint64, i int, tier string) *scen.Scenario {
 			addWriters(id)
 		case c < 55:
 			sc.Setup = append(sc.Setup, scen.Op{Op: "set", L: scen.Pick(r, loggers), Kind: "level", Lvl: pickLevel()})
-		case c < 62:
+		case c < 60:
 			sc.Setup = append(sc.Setup, scen.Op{Op: "pkg_set_level", Lvl: pickLevel()})
+		case c < 62:
+			sc.Setup = append(sc.Setup, scen.Op{Op: "pkg_reset_level"})
 		case c < 85 && len(customs) < 5:
 			var v int
 			switch r.Intn(4) {
